@@ -173,11 +173,20 @@ derive_ghash_value(const struct item *it, struct secret *s, const uint8_t ej0[16
         snprintf(s->name, sizeof s->name, "GHASH-S");
         return 1;
 }
+/* either 8-byte half of the value, as it is or byte-reversed (the GHASH code keeps its state byte-reflected) */
 static const uint8_t *
 find8(const uint8_t *hay, size_t n, const uint8_t *v)
 {
+        uint8_t rv[16];
         const uint8_t *a = memmem(hay, n, v, 8);
-        return a ? a : memmem(hay, n, v + 8, 8);
+        if (!a)
+                a = memmem(hay, n, v + 8, 8);
+        if (a)
+                return a;
+        for (int i = 0; i < 16; i++)
+                rv[i] = v[15 - i];
+        a = memmem(hay, n, rv, 8);
+        return a ? a : memmem(hay, n, rv + 8, 8);
 }
 /* search every observable location for either half of one 16-byte value; returns the location name or NULL */
 static const char *
@@ -501,6 +510,9 @@ direct_report(struct mmgr *mm, const char *fn, const struct secret *s, int ns)
                 n_value_searches++;
                 if (where) {
                         char key[200], det[300];
+                        if (g_opt.verbose && !strcmp(where, "vec-reg"))
+                                fprintf(stderr, "%s: %s=%s found in vec-reg %ld: %s\n", fn, s[k].name, hexs(s[k].v, 16), off,
+                                        hexs(g_cm->tc.vec + off * 64, 64));
                         snprintf(key, sizeof key, "C13|%s|direct|%s|DERIVED-%s|%s", variant_name(mm->variant), fn, s[k].name, where);
                         snprintf(det, sizeof det, "secret %s (8 bytes of its value) found in %s at %ld after %s returned", s[k].name, where, off, fn);
                         ev_violation("C13", key, det, NULL);
